@@ -115,9 +115,16 @@ def T(el, flow):
         return run(flow)
     if callable(el):
         return map(el, flow)
+    return _fill_then_compute(el, flow)
+
+
+def _fill_then_compute(el, flow):
+    # a generator, like every other stream transformation: nothing is filled
+    # before the first result is demanded
     for v in flow:
         el.fill(v)
-    return el.compute()
+    for x in el.compute():
+        yield x
 
 
 def outcome(thunk):
